@@ -47,3 +47,54 @@ func VerifFanOut(ctx context.Context, ch chan interface{}, size int) []chan inte
 func VerifDealerCoeffs(d *DistKeyGenerator) []kyber.Scalar {
 	return d.dealer.PrivatePoly().Coefficients()
 }
+
+// VerifGenDistKeyGenerator runs the genDistKeyGenerator stage on one batch of public-key messages
+// and reports whether it produced a generator (ok) or an error.
+func VerifGenDistKeyGenerator(ctx context.Context, logger log.Logger, suite suites.Suite, sec kyber.Scalar, pubs []*PublicKey, n int, sessionID string) (ok bool, err error) {
+	secrc := make(chan kyber.Scalar, 1)
+	partPubs := make(chan []*PublicKey, 1)
+	secrc <- sec
+	partPubs <- pubs
+	out, errc := genDistKeyGenerator(ctx, logger, secrc, partPubs, n, suite, sessionID)
+	for out != nil || errc != nil {
+		select {
+		case d, open := <-out:
+			if !open {
+				out = nil
+			} else if d != nil {
+				ok = true
+			}
+		case e, open := <-errc:
+			if !open {
+				errc = nil
+			} else if e != nil {
+				err = e
+			}
+		}
+	}
+	return
+}
+
+// VerifBuf is one (buffer, pending request) pair of pdkg.Loop, driven step by step.
+type VerifBuf struct {
+	m map[string][]interface{}
+	r map[string]request
+}
+
+// VerifNewBuf returns an empty buffer pair.
+func VerifNewBuf() *VerifBuf {
+	return &VerifBuf{m: map[string][]interface{}{}, r: map[string]request{}}
+}
+
+// Peer is the Loop's handling of one message received from a peer.
+func (b *VerifBuf) Peer(sessionID string, content interface{}) {
+	handlePeerMsg(b.m, b.r, nil, sessionID, content)
+}
+
+// Request is the Loop's handling of a stage's request for numOfResps messages; the batch is
+// delivered on the returned channel (capacity 1, like askMembers).
+func (b *VerifBuf) Request(ctx context.Context, sessionID string, numOfResps int) chan []interface{} {
+	out := make(chan []interface{}, 1)
+	handleRequest(b.m, b.r, request{ctx: ctx, sessionID: sessionID, numOfResps: numOfResps, reply: out})
+	return out
+}
